@@ -32,7 +32,7 @@ RULE = ("each run draws a transport mode (plain / stdlib TLS / PyOpenSSL TLS), a
         "twice - unsegmented baseline and segmented variant - and compared. distinct = distinct "
         "time-stripped delivery signatures of the variant; non-trivial = the variant delivered the "
         "client bytes in >= 2 reads")
-PROBES = ["upload_handler_raised", "valid_request_behind_invalid_line", "client_closes_right_after_upload", "cut_inside_multibyte_character", "data_after_dispatch", "cut_inside_crlf", "cut_at_titan_size", "handshake_coalesced",
+PROBES = ["twin_connections_identical_request_line", "upload_handler_raised", "valid_request_behind_invalid_line", "client_closes_right_after_upload", "cut_inside_multibyte_character", "data_after_dispatch", "cut_inside_crlf", "cut_at_titan_size", "handshake_coalesced",
           "titan_dispatch", "late_extra_reads", "real_upload_handler",
           "client_closes_right_after_request"]
 COMPONENTS = {
@@ -286,8 +286,83 @@ def gen_pieces(ch, stream):
     return out
 
 
+def twin_case(ch, res):
+    """Two connections at the same time with BYTE-IDENTICAL Titan request lines and different
+    contents: each upload is handled once, with its own bytes, and each client is told about
+    its own upload."""
+    from nauyaca.protocol.response import GeminiResponse
+    sim = Sim(ch)
+    net = sim.net
+    mode = sw.MODES[ch.choose("twin.mode", 3, [4, 2, 3])]
+    size = ch.pick("twin.size", [1, 16, 700])
+    contents = [bytes([65 + i]) * size for i in range(2 + ch.choose("twin.n", 2))]
+    line = f"titan://{HOST}/up/same.txt;size={size};mime=text/plain".encode() + b"\r\n"
+
+    def u_fn(req):
+        c = getattr(req, "content", b"")
+        return GeminiResponse(status=20, meta="text/plain", body="stored " + hashlib.sha256(c).hexdigest()[:12])
+    upspy = sw.SpyUpload(sim, {"kind": "ret", "delay": ch.pick("twin.udelay", [0.0, 0.05, 0.3]), "fn": u_fn})
+    spy = sw.SpyHandler(sim, {"kind": "ret", "delay": None,
+                              "response": GeminiResponse(status=20, meta="text/plain", body="x")})
+    peers = []
+
+    async def main():
+        server = await sw.start_protocol_server(sim, mode, spy, None, upspy)
+        for i, c in enumerate(contents):
+            split = ch.choose("twin.split", 2)
+            script = [("send", line), ("send", c)] if split else [("send", line + c)]
+            if i:
+                script = [("sleep", ch.pick("twin.start", [0.0, 0.0005, 0.01]))] + script
+            ep = raw_connect(net, HOST, 1965, src=("10.0.0.%d" % (i + 2), 50000 + i),
+                             c2s=WholePolicy(0.001), s2c=WholePolicy(0.001), tag=f"t{i}")
+            peers.append(RawPeer(net, ep, script, tls_ctx=sw.peer_tls_ctx(mode), name=f"twin{i}"))
+        for _ in range(100):
+            await asyncio.sleep(0.1)
+            if all(p.eof_seen() for p in peers):
+                break
+        await asyncio.sleep(0.5)
+        for p in peers:
+            p.drain_final()
+        server.close()
+    status = sim.run(main(), horizon=100.0)
+    if sim.error is not None:
+        raise sim.error
+    if status != "done":
+        raise RuntimeError(f"C07 twin world ended with status {status}")
+    want = sorted(hashlib.sha256(c).hexdigest()[:16] for c in contents)
+    got = sorted(e[4] for e in upspy.log)
+    ctx = dict(mode=mode, size=size, connections=len(contents), handler_saw=got, sent=want,
+               answers=[bytes(p.rx_plain)[:60] for p in peers])
+    if len(upspy.log) != len(contents):
+        res.violate(f"C07/upload-handler-invoked-more-than-once/{mode}" if len(upspy.log) > len(contents)
+                    else f"C07/upload-lost/identical-request-lines/{mode}",
+                    f"{len(contents)} connections with identical request lines: {len(upspy.log)} "
+                    f"upload-handler invocations", **ctx)
+    elif got != want:
+        res.violate(f"C07/handler-arguments-depend-on-other-connection/{mode}",
+                    "connections with identical request lines and different contents: the upload "
+                    "handler did not see each content exactly once", **ctx)
+    else:
+        for p, c in zip(peers, contents):
+            exp = b"20 text/plain\r\nstored " + hashlib.sha256(c).hexdigest()[:12].encode()
+            if bytes(p.rx_plain) != exp:
+                res.violate(f"C07/response-depends-on-other-connection/{mode}",
+                            "a client was not told about its own upload", expected=exp, **ctx)
+                break
+    res.stats["twin_connections_identical_request_line"] += 1
+    res.stats["connections"] += len(contents)
+    res.sim_seconds = net.now
+    res.signature = hashlib.sha256(("twin" + sim.signature()).encode()).hexdigest()[:16]
+    res.digest = sim.digest()
+    res.nontrivial = True
+    res.sample = ctx
+    return res
+
+
 def run_one(ch):
     res = RunResult()
+    if ch.chance("twin", 0.04):
+        return twin_case(ch, res)
     mode = sw.MODES[ch.choose("mode", 3, [6, 2, 3])]
     line, content, extra, kind, size = gen_request(ch)
     cfg = {
